@@ -109,6 +109,23 @@ def run_exp(ctx, rep):
     check_log2floor(fx, rep)
 
 
+def run_access_prices(ctx, rep):
+    """the price tables that depend on warm/cold access (C34 includes them): constants, SLOAD,
+    account access of the call family incl. EIP-7702 delegation, SELFDESTRUCT, EXTCODECOPY"""
+    fx = ctx.facts('default')
+    si = SpecInfo(fx)
+    if not si.ok:
+        for p in si.problems:
+            rep.undecided('spec-map', 'extract', p)
+        return
+    specs = [s for s in REF_ORDER if s in si.discr]
+    check_constants(fx, rep)
+    table_sload(fx, rep, si, specs)
+    table_selfdestruct(fx, rep, si, specs)
+    table_call(fx, rep, si, specs)
+    table_exp_extcodecopy(fx, rep, si, specs)
+
+
 def run_linear(ctx, rep):
     """the linear formulas alone, among them the calldata token count, the intrinsic gas per fork
     and the EIP-7623 floor (C02 includes it: a transaction is accepted iff its gas limit covers them)"""
